@@ -152,21 +152,24 @@ def local_aliases(f):
             for t in st.targets:
                 tgts += [n.id for n in ast.walk(t) if isinstance(n, ast.Name)]
             if len(st.targets) == 1 and isinstance(st.targets[0], ast.Name):
-                vals[st.targets[0].id] = st.value
+                vals.setdefault(st.targets[0].id, []).append(st.value)
         elif isinstance(st, (ast.For, ast.AugAssign)):
             tgts += [n.id for n in ast.walk(st.target) if isinstance(n, ast.Name)]
         for t in tgts:
             counts[t] = counts.get(t, 0) + 1
     out = {}
     params = set(f.all_params)
-    for name, v in vals.items():
-        if counts.get(name) == 1 and name not in params:
+    for name, vs in vals.items():
+        if counts.get(name) == len(vs) and name not in params:
+            # every binding of the name (e.g. one per format branch) denotes the same base
             saved = dict(_ALIASES)
             _ALIASES.clear()
-            b = base_name(v)
+            bases = {base_name(v) for v in vs}
             _ALIASES.update(saved)
-            if b is not None and b != name:
-                out[name] = b
+            if len(bases) == 1:
+                b = bases.pop()
+                if b is not None and b != name:
+                    out[name] = b
     return out
 
 
@@ -623,6 +626,10 @@ def check_frozenset(repo, res, sc_methods, simplex_helpers, face_helpers):
                 v = st.value
                 ok = is_frozen_expr(v)
                 why = ""
+                if not ok and isinstance(v, ast.Name) and v.id not in f.params:
+                    # a local bound (in every branch) to frozenset(...)
+                    defs = [s2.value for s2 in own_statements(f.node) if isinstance(s2, ast.Assign) and any(isinstance(tt, ast.Name) and tt.id == v.id for tt in s2.targets)]
+                    ok = bool(defs) and all(is_frozen_expr(d) for d in defs)
                 if not ok and isinstance(v, ast.Name) and v.id in f.params and m in simplex_helpers:
                     # parameter of a helper: every call site must pass a frozenset
                     pidx = f.params.index(v.id) - 1
